@@ -108,7 +108,9 @@ def c08(tier, seed):
          squeeze_args=lambda q: ["--scenarios", 4, "--max-rounds", 300 if q else 1500])
     c.nontrivial = lambda r: has_cov(r, "WAITLIST_ULT_WAIT")
     c.required_points = ["WAITLIST_ULT_WAIT", "BROADCAST_ULT", "BROADCAST_EXT", "FUTEX_WAIT_AFTER_UNLOCK"]
-    c.required_counters = ["rounds", "reinits", "xstream_barrier_rounds", "reentered_while_others_leaving"]
+    c.required_counters = ["rounds", "reinits", "xstream_barrier_rounds", "reentered_while_others_leaving",
+                           "tasklet_rejected_on_the_shared_barrier", "xstream_barrier_external_waiters",
+                           "xstream_barrier_phases_with_one_stream"]
     return c
 
 
@@ -729,7 +731,7 @@ def c13(tier, seed):
                            "concurrent_requests_rejected_same_pool", "self_issued_requests", "callbacks",
                            "rejected_current_pool", "rejected_non_migratable", "rejected_main_scheduler_ult",
                            "thread_migrate_moved_to_other_stream", "thread_migrate_no_target_rejected", "migrate_to_xstream",
-                           "migrate_to_sched", "first_request_races"]
+                           "migrate_to_sched", "first_request_races", "rejected_own_stream_with_multi_pool_scheduler"]
     c.required_points = ["MIGRATE_BEFORE_CLEAR", "MIGRATE_AFTER_TARGET_SET", "SCHEDULE_MIGRATED"]
     return c
 
